@@ -12,6 +12,11 @@ def run(tier, seed):
         gens.append(dict(name="C03_rand_m%d_l%d" % (mcb, lp),
                          consts=ec.consts({1, 3, 4}, A, 22 if q else 36, maxcb=mcb, limitprio=lp, scriptops=S, durs=(0, 1, 2)),
                          simulate=60 if q else 600, depth=800, constraint="GenConstraintNT"))
+    # signal events: loopbreak / loopcontinue from inside the ncalls loop of a signal callback (one timer + one signal: no ties)
+    gens.append(dict(name="C03_rand_sig",
+                     consts=ec.consts({3, 5}, {"add", "act", "raise", "script", "loop", "flags", "break", "del", "adv", "prio"}, 12 if q else 20,
+                                      scriptops={"break", "cont", "del", "act"}, durs=(0, 1)),
+                     simulate=50 if q else 500, depth=600, constraint="GenConstraintNT"))
     plan = {
         "mc": [("C03_mc", ec.consts({1, 3}, {"act", "later", "prio", "script", "loop", "flags", "break", "exit", "add"}, 3 if q else 4,
                                     durs=(0, 1), scriptops={"break", "cont", "act", "later"}, maxcb=1, limitprio=0))],
